@@ -73,3 +73,5 @@ func catch(f func()) (msg string) {
 }
 
 func q(b []byte) string { return fmt.Sprintf("%q", b) }
+
+var stubRegion = regionFor("t", "", "", 1)
